@@ -275,12 +275,24 @@ def run(chk, facts):
         chk.ob("R-C18-2", "Lex::new:end=token.end(start)", ok, "Lex::new: the span ends at token.end(start) - the same function that moves the caret" if ok else
                f"Lex::new no longer computes end = token.end(start): `{symeval.show(lv)[:120]}`", facts.loc_of(ln))
         nl = syn.one_fn("newline", impl_of="State")
-        n_ = src(nl["body"]).replace(" ", "")
-        ok = "self.pos=self.pos.newline()" in n_ and "self.line_indent=1" in n_ and "self.newlines.push(Lex::new(self.pos,Token::NL))" in n_
-        chk.ob("R-C18-2", "State::newline", ok, "a newline is recorded at the caret, then the caret moves to the next line, column 1" if ok else "State::newline changed shape", facts.loc_of(nl))
         sp = syn.one_fn("space", impl_of="State")
-        ok = "self.pos=self.pos.offset_pos(1)" in src(sp["body"]).replace(" ", "")
-        chk.ob("R-C18-2", "State::space", ok, "a space advances the caret by one column" if ok else "State::space no longer advances by one column", facts.loc_of(sp))
+        from .lexer import state_step_folds
+        from .smalleval import NoEval as _NoEval2
+        try:
+            after, unc = state_step_folds(syn)
+            why = ("a branch no case reaches: " + "; ".join(unc[:2])) if unc else ""
+        except _NoEval2 as ex:
+            after, unc, why = None, [], f"not foldable ({ex})"
+
+        def pos_of(st_):
+            return (st_["pos"].get("line"), st_["pos"].get("pos"))
+        ok = after is not None and not unc and all(
+            pos_of(after[("newline", fl, li)]) == (4, 1) and after[("newline", fl, li)]["newlines"] == ("list", [("lex", {"line": 3, "pos": 7}, "Token::NL")])
+            for fl in (False, True) for li in (1, 5))
+        chk.ob("R-C18-2", "State::newline", ok, "a newline is recorded at the caret, then the caret moves to the next line, column 1 (State::newline folded)" if ok else
+               f"State::newline no longer records one NL token at the caret and moves to column 1 of the next line {why}", facts.loc_of(nl))
+        ok = after is not None and not unc and all(pos_of(after[("space", fl, li)]) == (3, 8) for fl in (False, True) for li in (1, 5))
+        chk.ob("R-C18-2", "State::space", ok, "a space advances the caret by one column (State::space folded)" if ok else f"State::space no longer advances by one column {why}", facts.loc_of(sp))
         op = syn.one_fn("offset_pos", impl_of="CaretPos")
         ov = se.ev(op["body"], {"self": ("var", "self"), "offset": ("var", "offset")})
         ok = ov[0] == "core" and ov[1] in ("CaretPos", "Self") and ov[2].get("pos") == ("bin", "+", ("var", "self.pos"), ("var", "offset")) and \
